@@ -56,12 +56,28 @@ def type_tokens(toks, i):
     return out
 
 
+STD_IMPORTED = set()      # names imported from std::collections in the file being scanned (then a bare HashMap is the std one)
+
+
+def std_imports(toks):
+    names = set()
+    for i in range(len(toks) - 5):
+        if toks[i][1] == "use" and toks[i + 1][1] == "std" and toks[i + 3][1] == "collections":
+            j = i + 5
+            depth = 0
+            while j < len(toks) and toks[j][1] != ";":
+                if toks[j][0] == "ident" and toks[j][1] in ("HashMap", "HashSet") and not (toks[j + 1][1] == "as"):
+                    names.add(toks[j][1])
+                j += 1
+    return names
+
+
 def hasher_of(ty):
     """hasher class of a type token list, or None if it is not a hash container (looks through Option/RefCell/&/Box/Rc/Arc/Mutex)"""
     for k, t in enumerate(ty):
         if t in ("HashMap", "HashSet", "FxHashMap", "FxHashSet", "StdHashMap", "StdHashSet"):
             # std::collections::HashMap spelled with a path
-            std = k >= 2 and ty[k - 1] == "::" and ty[k - 2] == "collections"
+            std = (k >= 2 and ty[k - 1] == "::" and ty[k - 2] == "collections") or t in STD_IMPORTED
             cls = "Random" if (std or t.startswith("Std")) else "Fx"
             key = ty[k + 2] if k + 2 < len(ty) and ty[k + 1] == "<" else "?"
             if cls == "Fx" and key in ("Cursor", "*"):
@@ -78,6 +94,8 @@ def containers(repo):
             continue
         toks = lex(src)
         rel = os.path.relpath(p, repo)
+        STD_IMPORTED.clear()
+        STD_IMPORTED.update(std_imports(toks))
         for i in range(1, len(toks) - 2):
             k, t = toks[i]
             # name: Type   (fields, parameters, typed lets)
@@ -107,7 +125,7 @@ def containers(repo):
                         e += 1
                     h = None
                     if init and init[0] in ("HashMap", "HashSet", "StdHashMap", "FxHashMap", "FxHashSet") and len(init) > 2 and init[1] == "::":
-                        h = ("Random" if init[0].startswith("Std") else "Fx", "?")
+                        h = ("Random" if (init[0].startswith("Std") or init[0] in STD_IMPORTED) else "Fx", "?")
                     for q in range(len(init) - 3):
                         if init[q] == "collect" and init[q + 1] == "::" and init[q + 2] == "<":
                             hh = hasher_of(init[q + 3:])
